@@ -55,6 +55,13 @@ func main() {
 			os.Exit(2)
 		}
 		rules.DumpBCE(rules.NewCtx(p, "debug", "quick"))
+	case "narrow":
+		p, err := load.Load("/repo", false)
+		if err != nil {
+			fmt.Fprintln(os.Stderr, err)
+			os.Exit(2)
+		}
+		rules.DumpNarrow(os.Stdout, p)
 	case "errors":
 		p, err := load.Load("/repo", false)
 		if err != nil {
